@@ -1,0 +1,32 @@
+//go:build verif
+
+package verifhooks
+
+import (
+	"io"
+
+	"github.com/cedar-policy/cedar-go/internal/parser"
+)
+
+// VerifToken is one scanner token with its source position (C18).
+// Type: 0 EOF, 1 ident, 2 int, 3 reserved keyword, 4 string, 5 operator, 6 unknown.
+type VerifToken struct {
+	Type   int
+	Offset int
+	Line   int
+	Column int
+	Text   string
+}
+
+// TokenizeReader runs internal/parser.TokenizeReader (the streaming scanner) on r.
+func TokenizeReader(r io.Reader) ([]VerifToken, error) {
+	toks, err := parser.TokenizeReader(r)
+	if err != nil {
+		return nil, err
+	}
+	res := make([]VerifToken, len(toks))
+	for i, t := range toks {
+		res[i] = VerifToken{Type: int(t.Type), Offset: t.Pos.Offset, Line: t.Pos.Line, Column: t.Pos.Column, Text: t.Text}
+	}
+	return res, nil
+}
